@@ -271,6 +271,7 @@ pub fn apply(ctx: &mut Ctx, op: &Op) -> (String, i64) {
                 Ok(0)
             }
             "QueryAdd" => crate::query::query_add(store, a, style),
+            "QueryDelete" => crate::query::query_delete(store, a, style),
             "AnnotateBatch" => {
                 let items = a["items"].as_array().expect("harness: batch items");
                 if a["via"] == "file" {
